@@ -51,18 +51,23 @@ def _build(name, n):
     return a
 
 
+def SPARSE(n): return [1 - (i & 1) for i in range(n)]          # 1010..: the selected elements are not a prefix of the storage
+
+
 def export_case(name, n, variant):
     a = _build(name, n)
     keep = a
     if variant == "read-only": a.makeReadOnly()
     elif variant == "masked-reference": a = a[int_array([1] * n)]
+    elif variant == "masked-reference-sparse": a = a[int_array(SPARSE(n))]
     elif variant == "component": a = a.x
+    elif variant == "component-of-masked-reference": a = a[int_array(SPARSE(n))].x
     mv = memoryview(a)
     info = {"format": mv.format, "itemsize": mv.itemsize, "ndim": mv.ndim, "shape": tuple(mv.shape), "strides": tuple(mv.strides),
             "nbytes": mv.nbytes, "readonly": mv.readonly, "writable": a.writable(), "tobytes": len(mv.tobytes()), "tolist": mv.tolist()}
-    if mv.ndim == 1 and not mv.readonly and n:
-        mv[n - 1] = 77
-        info["after-write"] = repr(a[n - 1])
+    if mv.ndim == 1 and not mv.readonly and len(a):
+        mv[len(a) - 1] = 77
+        info["after-write"] = repr(a[len(a) - 1])
     return info
 
 
@@ -85,6 +90,7 @@ def readinto_case(name, n, readonly):
 
 
 def run_export(R):
+    R.declare("buf.export.masked-reference-sparse", "buf.export.component-of-masked-reference")
     R.declare("buf.export.scalar-array", "buf.export.vector-array", "buf.export.read-only", "buf.export.masked-reference", "buf.export.component-view",
               "buf.export.writable-request")
     names = run_case(exporters)[1]
@@ -93,36 +99,44 @@ def run_export(R):
         f, z, w = EXPORT_FMT[name]
         kind = "scalar" if w == 1 else "vec"
         for n in range(5):
-            for variant in ("writable", "read-only", "masked-reference") + (("component",) if w > 1 and f in "ifd" else ()):
+            for variant in ("writable", "read-only", "masked-reference", "masked-reference-sparse") + (("component", "component-of-masked-reference") if w > 1 and f in "ifd" else ()):
                 if R.out_of_time(): return False
                 R.add("states"); R.add("transitions")
                 R.cls({"writable": "buf.export.scalar-array" if w == 1 else "buf.export.vector-array", "read-only": "buf.export.read-only",
-                       "masked-reference": "buf.export.masked-reference", "component": "buf.export.component-view"}[variant])
+                       "masked-reference": "buf.export.masked-reference", "component": "buf.export.component-view",
+                       "masked-reference-sparse": "buf.export.masked-reference-sparse", "component-of-masked-reference": "buf.export.component-of-masked-reference"}[variant])
                 inp = "memoryview(%s %s(%d))" % (variant, name, n)
                 k, v = run_case(export_case, name, n, variant)
                 if k == "fatal":
-                    R.fail("buf.export.%s.fatal" % {"writable": "array", "read-only": "readonly-array", "masked-reference": "masked-reference", "component": "component-view"}[variant],
+                    R.fail("buf.export.%s.fatal" % {"writable": "array", "read-only": "readonly-array", "masked-reference": "masked-reference", "component": "component-view"}.get(variant, variant),
                            inp, "a memoryview or a Python exception", v); continue
                 if k == "exc":
                     if variant != "writable" and not v.startswith("ArgumentError"): continue     # may refuse to export
                     R.fail("buf.export.%s.exception" % variant, inp, "a memoryview", v); continue
-                pre = "buf.export.component-view." if variant == "component" else "buf.export."
-                cw = 1 if variant == "component" else w
-                shape = (n,) if cw == 1 else (n, cw)
-                prod = n * cw
+                iscomp = variant in ("component", "component-of-masked-reference")
+                pre = {"component": "buf.export.component-view.", "component-of-masked-reference": "buf.export.component-of-masked-reference.",
+                       "masked-reference-sparse": "buf.export.masked-reference-sparse."}.get(variant, "buf.export.")
+                sparse = variant in ("masked-reference-sparse", "component-of-masked-reference")
+                selidx = [i for i in range(n) if SPARSE(n)[i]] if sparse else list(range(n))
+                nn, n_all = len(selidx), n
+                cw = 1 if iscomp else w
+                shape = (nn,) if cw == 1 else (nn, cw)
+                prod = nn * cw
                 if v["itemsize"] != z or struct.calcsize(v["format"] or "B") != z:
                     R.fail(pre + "format", inp, "item size %d" % z, (v["format"], v["itemsize"]))
                 if v["shape"] != shape or v["ndim"] != len(shape):
                     R.fail(pre + "shape", inp, shape, (v["ndim"], v["shape"]))
-                if variant != "component":
+                if sparse:
+                    pass                                    # a sparse selection has no constant stride: whatever is exported must read the right elements
+                elif not iscomp:
                     cs = (z,) if w == 1 else (w * z, z)
                     if v["strides"] != cs: R.fail(pre + "strides", inp, cs, v["strides"])
                 else:
                     if v["strides"] != (w * z,): R.fail(pre + "strides", inp, (w * z,), v["strides"])
-                if v["nbytes"] != prod * z or (variant != "component" and v["tobytes"] != prod * z):
-                    R.fail(pre + ("len" if variant == "component" else "len." + kind), inp, "nbytes == len(tobytes()) == prod(shape)*itemsize == %d" % (prod * z), "nbytes=%d len(tobytes())=%d" % (v["nbytes"], v["tobytes"]))
-                want = _model(name, n)
-                if variant == "component": want = [r[0] for r in want]
+                if v["nbytes"] != prod * z or (not iscomp and v["tobytes"] != prod * z):
+                    R.fail(pre + ("len" if iscomp or sparse else "len." + kind), inp, "nbytes == len(tobytes()) == prod(shape)*itemsize == %d" % (prod * z), "nbytes=%d len(tobytes())=%d" % (v["nbytes"], v["tobytes"]))
+                want = [_model(name, n_all)[i] for i in selidx]
+                if iscomp: want = [r[0] for r in want]
                 if v["tolist"] != want: R.fail(pre + "contents", inp, want, v["tolist"])
                 if v["readonly"] != (not v["writable"]): R.fail(pre + "readonly-flag", inp, not v["writable"], v["readonly"])
                 if "after-write" in v and v["after-write"] not in ("77", "77.0"): R.fail(pre + "write-through", inp + "[n-1]=77", 77, v["after-write"])
